@@ -17,6 +17,10 @@ import (
 	"crypto/x509"
 	"flag"
 	"fmt"
+	"go/ast"
+	"go/parser"
+	"go/printer"
+	"go/token"
 	"os"
 	"os/exec"
 	"path/filepath"
@@ -33,6 +37,7 @@ import (
 	"go.step.sm/crypto/minica"
 
 	"github.com/smallstep/certificates/authority"
+	"github.com/smallstep/certificates/authority/administrator"
 	"github.com/smallstep/certificates/authority/config"
 	"github.com/smallstep/certificates/authority/provisioner"
 	"github.com/smallstep/certificates/scep"
@@ -84,7 +89,7 @@ func workload(seconds int, probesOut string) error {
 	adm := admins[0]
 
 	var probes []probe
-	var pmu sync.Mutex
+	var pmu, countMu sync.Mutex // countMu: the number of administrators is only changed by its holder
 	addProbe := func(p probe) { pmu.Lock(); probes = append(probes, p); pmu.Unlock() }
 
 	sign := func(name string, key *jose.JSONWebKey, iss string) error {
@@ -211,35 +216,126 @@ func workload(seconds int, probesOut string) error {
 						addProbe(probe{"provisioner-updated", "present", "present"})
 					}
 				}
-				// rename it: the old name stops answering, the new one answers (the rename reloads the
-				// administrative state under the write lock, SCEP authority revalidation included)
-				old := name
-				name = name + "r"
-				lp.Name = name
-				if err := a.UpdateProvisioner(ctx, lp); err == nil {
-					addProbe(probe{"provisioner-renamed new-name", cls(sign("a.allowed.test", jwk, name)), "issued"})
-					addProbe(probe{"provisioner-renamed old-name", cls(sign("a.allowed.test", jwk, old)), "refused"})
-				} else {
-					name = old
-					lp.Name = old
+				// administrators on that provisioner: none, one, several (the per-provisioner list is a slice the
+				// removal below walks while it shrinks), and now and then as many as make the total a multiple of
+				// the page size the re-indexing after a rename reads them in
+				countMu.Lock()
+				var subs []string
+				for i := round % 6; i > 0; i-- {
+					subs = append(subs, fmt.Sprintf("ops%d", i))
 				}
-				// an ordinary administrator on that provisioner
-				na := &linkedca.Admin{ProvisionerId: lp.Id, Subject: "ops", Type: linkedca.Admin_ADMIN}
-				if err := a.StoreAdmin(ctx, na, mustProv(a, lp.Id)); err == nil {
-					if _, ok := a.LoadAdminBySubProv("ops", name); !ok {
+				if round%5 == 2 {
+					if all, err := a.GetAdminDatabase().GetAdmins(ctx); err == nil {
+						for i := len(all) + len(subs); i%administrator.DefaultAdminMax != 0; i++ {
+							subs = append(subs, fmt.Sprintf("bulk%d", i))
+						}
+					}
+				}
+				stored := 0
+				for _, sub := range subs {
+					na := &linkedca.Admin{ProvisionerId: lp.Id, Subject: sub, Type: linkedca.Admin_ADMIN}
+					if err := a.StoreAdmin(ctx, na, mustProv(a, lp.Id)); err == nil {
+						stored++
+					}
+				}
+				if len(subs) > 0 {
+					if _, ok := a.LoadAdminBySubProv(subs[0], name); !ok || stored != len(subs) {
 						addProbe(probe{"admin-stored", "absent", "present"})
 					} else {
 						addProbe(probe{"admin-stored", "present", "present"})
 					}
 				}
-				if err := a.RemoveProvisioner(ctx, lp.Id); err == nil {
-					addProbe(probe{"provisioner-removed", cls(sign("a.allowed.test", jwk, name)), "refused"})
-					if _, ok := a.LoadAdminBySubProv("ops", name); ok {
-						addProbe(probe{"provisioner-removed admins", "present", "absent"})
+				// what the running CA and the admin database say about that provisioner and its administrators
+				state := func(provName string, current bool) (string, string) {
+					p, err := a.LoadProvisionerByName(provName)
+					memProv := err == nil && p != nil
+					memAdm := 0
+					for _, sub := range subs {
+						if _, ok := a.LoadAdminBySubProv(sub, provName); ok {
+							memAdm++
+						}
+					}
+					_, err = a.GetAdminDatabase().GetProvisioner(ctx, lp.Id)
+					dbProv := err == nil
+					dbAdm := 0
+					if all, err := a.GetAdminDatabase().GetAdmins(ctx); err == nil {
+						for _, x := range all {
+							if x.ProvisionerId == lp.Id {
+								dbAdm++
+							}
+						}
+					}
+					detail := fmt.Sprintf("prov=%v/%v admins=%s/%s", memProv, dbProv, frac(memAdm, len(subs)), frac(dbAdm, len(subs)))
+					if !current { // a name the provisioner does not have (any more): the database record is found by id either way
+						dbProv, dbAdm = memProv, memAdm
+					}
+					switch {
+					case memProv && dbProv && memAdm == len(subs) && dbAdm == len(subs):
+						return "present", detail
+					case !memProv && !dbProv && memAdm == 0 && dbAdm == 0:
+						return "absent", detail
+					}
+					return "mixed", detail
+				}
+				// rename it: the old name stops answering, the new one answers, the administrators follow (the rename
+				// reloads the administrative state under the write lock, SCEP authority revalidation included);
+				// a rename that is refused leaves everything under the old name
+				old := name
+				name = name + "r"
+				lp.Name = name
+				err := a.UpdateProvisioner(ctx, lp)
+				sNew, dNew := state(name, err == nil)
+				sOld, dOld := state(old, err != nil)
+				switch {
+				case err == nil:
+					addProbe(probe{"provisioner-renamed new-name", cls(sign("a.allowed.test", jwk, name)), "issued"})
+					addProbe(probe{"provisioner-renamed old-name", cls(sign("a.allowed.test", jwk, old)), "refused"})
+					if sNew == "present" && sOld == "absent" {
+						addProbe(probe{"provisioner-renamed state", "renamed", "renamed"})
 					} else {
-						addProbe(probe{"provisioner-removed admins", "absent", "absent"})
+						addProbe(probe{"provisioner-renamed state", "mixed:new:" + dNew + ",old:" + dOld, "renamed"})
+					}
+				default:
+					if sOld == "present" && sNew == "absent" {
+						addProbe(probe{"provisioner-rename-refused state", "one-of-both", "one-of-both"})
+					} else {
+						addProbe(probe{"provisioner-rename-refused state", "mixed:new:" + dNew + ",old:" + dOld, "one-of-both"})
+					}
+					if sOld == "present" {
+						name = old
+						lp.Name = old
 					}
 				}
+				// remove it: the provisioner and every administrator of it go, or (refused) all of them stay
+				err = a.RemoveProvisioner(ctx, lp.Id)
+				sAfter, dAfter := state(name, true)
+				switch {
+				case err == nil:
+					addProbe(probe{"provisioner-removed", cls(sign("a.allowed.test", jwk, name)), "refused"})
+					if sAfter == "absent" {
+						addProbe(probe{"provisioner-removed admins", "absent", "absent"})
+					} else {
+						addProbe(probe{"provisioner-removed admins", "mixed:" + dAfter, "absent"})
+					}
+				case sAfter == "mixed":
+					addProbe(probe{"provisioner-remove-refused state", "mixed:" + dAfter, "one-of-both"})
+				default:
+					addProbe(probe{"provisioner-remove-refused state", "one-of-both", "one-of-both"})
+				}
+				if sAfter != "absent" {
+					// leave nothing behind for the next rounds' counts
+					if all, err := a.GetAdminDatabase().GetAdmins(ctx); err == nil {
+						for _, x := range all {
+							if x.ProvisionerId == lp.Id {
+								if a.RemoveAdmin(ctx, x.Id) != nil {
+									a.GetAdminDatabase().DeleteAdmin(ctx, x.Id)
+								}
+							}
+						}
+					}
+					a.RemoveProvisioner(ctx, lp.Id)
+				}
+				countMu.Unlock()
 			}
 		}
 	}()
@@ -260,6 +356,7 @@ func workload(seconds int, probesOut string) error {
 			default:
 			}
 			subj := fmt.Sprintf("dup-%d", round)
+			countMu.Lock()
 			var ok int32
 			var pair sync.WaitGroup
 			start := make(chan struct{})
@@ -293,6 +390,7 @@ func workload(seconds int, probesOut string) error {
 					a.GetAdminDatabase().DeleteAdmin(ctx, id)
 				}
 			}
+			countMu.Unlock()
 			time.Sleep(5 * time.Millisecond)
 		}
 	}()
@@ -356,6 +454,51 @@ func workload(seconds int, probesOut string) error {
 	}
 	return nil
 }
+
+// sliceShape re-reads the two loops `Verif.AdminSlice` models: Collection.Remove's edit of the per-provisioner slice
+// and RemoveProvisioner's walk over the slice LoadByProvisioner hands out.
+func sliceShape(repo string) string {
+	fset := token.NewFileSet()
+	str := func(n ast.Node) string {
+		var b strings.Builder
+		printer.Fprint(&b, fset, n)
+		return strings.Join(strings.Fields(b.String()), "")
+	}
+	rangeOver := func(file, fn, x string) string {
+		f, err := parser.ParseFile(fset, filepath.Join(repo, file), nil, 0)
+		if err != nil {
+			return "parse-error"
+		}
+		var out []string
+		for _, d := range f.Decls {
+			fd, ok := d.(*ast.FuncDecl)
+			if !ok || fd.Body == nil || fd.Name.Name != fn {
+				continue
+			}
+			src := ""
+			ast.Inspect(fd.Body, func(n ast.Node) bool {
+				switch v := n.(type) {
+				case *ast.AssignStmt:
+					if len(v.Lhs) > 0 && str(v.Lhs[0]) == x {
+						src = str(v.Rhs[0])
+					}
+				case *ast.RangeStmt:
+					if str(v.X) == x {
+						out = append(out, "from:"+src+"|body:"+str(v.Body))
+					}
+				}
+				return true
+			})
+		}
+		return strings.Join(out, "&&")
+	}
+	return "remove=" + rangeOver("authority/administrator/collection.go", "Remove", "adminsByProv") +
+		" removeprov=" + rangeOver("authority/provisioners.go", "RemoveProvisioner", "admins")
+}
+
+const sliceShapeReviewed = `remove=from:c.LoadByProvisioner(provName)|body:{ifa.Id==adm.Id{adminsByProv[i]=adminsByProv[len(adminsByProv)-1]c.byProv.Store(provName,adminsByProv[:len(adminsByProv)-1])found=true}} removeprov=from:a.admins.LoadByProvisioner(provName)|body:{iferr:=a.removeAdmin(ctx,adm.Id);err!=nil{returnadmin.WrapErrorISE(err,"errordeletingadmin%s,aspartofprovisioner%sdeletion",adm.Subject,provName)}}`
+
+func frac(n, of int) string { return fmt.Sprintf("%d/%d", n, of) }
 
 func mustProv(a *authority.Authority, id string) provisioner.Interface {
 	p, err := a.LoadProvisionerByID(id)
@@ -438,6 +581,12 @@ func main() {
 		os.Exit(2)
 	}
 	defer o.Close()
+	repo := os.Getenv("VERIF_REPO")
+	if repo == "" {
+		repo = "/repo"
+	}
+	// unexplained when it differs: the model of the walk no longer describes the code (correspondence, not a failing input)
+	o.Row("shape admin-slice walk (Verif.AdminSlice)", sliceShape(repo), sliceShapeReviewed)
 	races := parseRaces(dir)
 	keys := make([]string, 0, len(races))
 	for k := range races {
